@@ -72,6 +72,8 @@ def run_harness(exe, args, acc, job, timeout=600, env=None, cwd=None, crash_prop
         e.update(env)
     e["VERIF_OUT"] = outp
     e["VERIF_PROGRESS"] = progp
+    ipclog = outp + ".ipc"
+    e["VERIF_IPCLOG"] = ipclog
     t0 = time.time()
     try:
         with open(logp, "wb") as logf:
@@ -117,7 +119,17 @@ def run_harness(exe, args, acc, job, timeout=600, env=None, cwd=None, crash_prop
                                   job=job))
         return rc
     finally:
-        for p in (outp, progp, logp):
+        try:
+            for ln in open(ipclog):
+                ln = ln.strip()
+                if ln.startswith("/dev/shm/"):
+                    try:
+                        os.unlink(ln)
+                    except OSError:
+                        pass
+        except OSError:
+            pass
+        for p in (outp, progp, logp, ipclog):
             try:
                 os.unlink(p)
             except OSError:
